@@ -57,31 +57,47 @@ structure Fields where
 
 def dig (c : Char) : Nat := c.toNat - 48
 
+/-- two digits satisfying `p` at the start of the input -/
+def digits2 (p : Nat → Nat → Bool) (s : Str) : List (Nat × Str) :=
+  match s with
+  | a :: b :: r => if isAsciiDigit a && isAsciiDigit b && p (dig a) (dig b) then [(dig a * 10 + dig b, r)] else []
+  | _ => []
+
+/-- one digit satisfying `p` at the start of the input -/
+def digits1 (p : Nat → Bool) (s : Str) : List (Nat × Str) :=
+  match s with
+  | a :: r => if isAsciiDigit a && p (dig a) then [(dig a, r)] else []
+  | _ => []
+
+/-- a blank followed by a non-zero digit (`%d` only) -/
+def blankDigit (s : Str) : List (Nat × Str) :=
+  match s with
+  | ' ' :: a :: r => if isAsciiDigit a && dig a ≥ 1 then [(dig a, r)] else []
+  | _ => []
+
+/-- four digits -/
+def digits4 (s : Str) : List (Nat × Str) :=
+  match s with
+  | a :: b :: c :: d :: r =>
+    if isAsciiDigit a && isAsciiDigit b && isAsciiDigit c && isAsciiDigit d then
+      [(dig a * 1000 + dig b * 100 + dig c * 10 + dig d, r)] else []
+  | _ => []
+
 /-- the alternatives of one directive in CPython's regex, in its order of preference: each returns the
 numeric value and the rest of the input -/
 def directiveAlts (t : FmtTok) (s : Str) : List (Nat × Str) :=
-  let d2 (p : Nat → Nat → Bool) : List (Nat × Str) := match s with
-    | a :: b :: r => if isAsciiDigit a && isAsciiDigit b && p (dig a) (dig b) then [(dig a * 10 + dig b, r)] else []
-    | _ => []
-  let d1 (p : Nat → Bool) : List (Nat × Str) := match s with
-    | a :: r => if isAsciiDigit a && p (dig a) then [(dig a, r)] else []
-    | _ => []
   match t with
   | .day =>   -- 3[0-1]|[1-2]\d|0[1-9]|[1-9]| [1-9]
-    d2 (fun a b => a == 3 && b ≤ 1) ++ d2 (fun a _ => a == 1 || a == 2) ++ d2 (fun a b => a == 0 && b ≥ 1) ++
-      d1 (fun a => a ≥ 1) ++ (match s with | ' ' :: a :: r => if isAsciiDigit a && dig a ≥ 1 then [(dig a, r)] else [] | _ => [])
+    digits2 (fun a b => a == 3 && b ≤ 1) s ++ digits2 (fun a _ => a == 1 || a == 2) s ++ digits2 (fun a b => a == 0 && b ≥ 1) s ++
+      digits1 (fun a => a ≥ 1) s ++ blankDigit s
   | .month => -- 1[0-2]|0[1-9]|[1-9]
-    d2 (fun a b => a == 1 && b ≤ 2) ++ d2 (fun a b => a == 0 && b ≥ 1) ++ d1 (fun a => a ≥ 1)
-  | .year4 => match s with
-    | a :: b :: c :: d :: r =>
-      if isAsciiDigit a && isAsciiDigit b && isAsciiDigit c && isAsciiDigit d then
-        [(dig a * 1000 + dig b * 100 + dig c * 10 + dig d, r)] else []
-    | _ => []
-  | .year2 => d2 (fun _ _ => true)
+    digits2 (fun a b => a == 1 && b ≤ 2) s ++ digits2 (fun a b => a == 0 && b ≥ 1) s ++ digits1 (fun a => a ≥ 1) s
+  | .year4 => digits4 s
+  | .year2 => digits2 (fun _ _ => true) s
   | .hour =>  -- 2[0-3]|[0-1]\d|\d
-    d2 (fun a b => a == 2 && b ≤ 3) ++ d2 (fun a _ => a ≤ 1) ++ d1 (fun _ => true)
-  | .minute => d2 (fun a _ => a ≤ 5) ++ d1 (fun _ => true)           -- [0-5]\d|\d
-  | .second => d2 (fun a b => a == 6 && b ≤ 1) ++ d2 (fun a _ => a ≤ 5) ++ d1 (fun _ => true)   -- 6[0-1]|[0-5]\d|\d
+    digits2 (fun a b => a == 2 && b ≤ 3) s ++ digits2 (fun a _ => a ≤ 1) s ++ digits1 (fun _ => true) s
+  | .minute => digits2 (fun a _ => a ≤ 5) s ++ digits1 (fun _ => true) s           -- [0-5]\d|\d
+  | .second => digits2 (fun a b => a == 6 && b ≤ 1) s ++ digits2 (fun a _ => a ≤ 5) s ++ digits1 (fun _ => true) s   -- 6[0-1]|[0-5]\d|\d
   | _ => []
 
 def setField (f : Fields) (t : FmtTok) (v : Nat) : Fields :=
